@@ -31,7 +31,10 @@ RULE = ("TLC (GEN_SpatialIndex_[a-f].cfg) emits 12 lanelet families (disjoint, e
         "classified by TLC (inside / overlapping / reaching / touching(-edge/-corner) / disjoint), PerClass kept per class; "
         "9 obstacles (static / trajectory / set-based; rect, disc, polygon, groups; one appearing late). Sequences of length 1 get "
         "the full query set incl. obstacles, longer ones positions + shapes.  GEN_SpatialIndex_shape.cfg emits 16 shapes "
-        "x 81..162 probes with probe classes, executed on 10 shape routes.  Plus seeded random box networks / queries. "
+        "x 81..162 probes with probe classes, executed on 10 shape routes (ctor, deepcopy, pickle, xml, pb, translate, rotate, "
+        "local, attribute assignment cold / warm).  Thorough adds the sequences of length 3 of two families "
+        "(GEN_SpatialIndex_deep_[xy].cfg) and the dense candidate sets.  Plus 42 fixed cases on networks without lanelets and "
+        "seeded random box networks / queries. "
         "distinct_nontrivial = distinct (family, route sequence) with >= 2 lanelets + distinct (shape, route).")
 ASSUMPTIONS = ["lanelet polygons are simple lattice polygons; the truth polygons of an event are read from the network under "
                "test through Lanelet.right_vertices / left_vertices (right boundary + reversed left boundary)",
@@ -148,6 +151,11 @@ def _random_cases(ctx, fams):
     builders = [["from_list", [0]], ["from_list", [1]], ["add_each", []], ["add_defer", []], ["add_from_network", []],
                 ["scenario_add", []]]
     out = []
+    for b in builders:                                                    # networks without lanelets
+        for f in (None, "deepcopy", "pickle", "xml", "pb", "xml_net", "pb_net"):
+            out.append({"kind": "net", "fam": "empty", "lanelets": [], "net": [], "cuts": any_f["cuts"], "obstacles": [],
+                        "routes": [dict(zip(("r", "a"), b))] + ([{"r": f, "a": []}] if f else []),
+                        "points": any_f["points"][:2], "shapes": any_f["shapes"][:3], "src": "fixed"})
     for _ in range(1500 if ctx.thorough else 150):
         n = rng.randint(1, 4)
         lls, net = [], []
@@ -470,12 +478,17 @@ def _exec_net(case):
             d = _move_shape(m, d)
         return d
 
+    points, shapes = case["points"], case["shapes"]
+    if not polys:                       # a network without lanelets: one lookup of each kind under its own signature
+        points = [{"cls": "empty-network", "pts": [p for g in points for p in g["pts"]][:20]}]
+        shapes = [dict(s, kind="any", cls="empty-network") for s in shapes[:3]]
+        obstacles = []
     all_pts = []
-    for g in case["points"]:
+    for g in points:
         pts = [mv_pt(p) for p in g["pts"]]
         all_pts += pts
         e = dict(common, op="find_by_position", pts=pts, res=[], exc="",
-                 sig="find_by_position/route=%s/%s" % (last, g["cls"]))
+                 sig="find_by_position/route=%s/%s" % (last, g["cls"]) if polys else "find_by_position/empty-network")
         try:
             res = net.find_lanelet_by_position([_pt(p) for p in pts])
             e["res"] = [[int(x) for x in r] for r in res]
@@ -490,10 +503,10 @@ def _exec_net(case):
         except Exception as ex:
             e["exc"] = _exc(ex)
         ev.append(e)
-    for s in case["shapes"]:
+    for s in shapes:
         d = mv_shape(s["shape"])
         e = dict(common, op="find_by_shape", shape=d, res=[], exc="",
-                 sig="find_by_shape/%s/%s" % ("disc" if s["kind"] == "disc" else s["kind"], s["cls"]))
+                 sig="find_by_shape/%s/%s" % (s["kind"], s["cls"]) if polys else "find_by_shape/empty-network")
         try:
             e["res"] = [int(x) for x in net.find_lanelet_by_shape(g_shape(d))]
         except Exception as ex:
